@@ -19,11 +19,17 @@ fn giftwrap(author_i: u8, target: u8, shape: u8, t: u64) -> GenEvent {
     // kind 1059 whose p tag names `target` first / in a second p tag / only as a non-first value
     let pk = author(target);
     let other = crate::model::hex(&[0x77; 32]);
-    let tags = match shape % 4 {
-        0 => vec![vec!["p".to_string(), pk]],
+    let tags = match shape % 10 {
+        0 | 4 => vec![vec!["p".to_string(), pk]],
         1 => vec![vec!["p".to_string(), other], vec!["p".to_string(), pk]],
         2 => vec![vec!["p".to_string(), other, pk]],
-        _ => vec![vec!["e".to_string(), pk], vec!["P".to_string(), author(target)]],
+        3 => vec![vec!["e".to_string(), pk], vec!["P".to_string(), author(target)]],
+        // values that are not the pubkey but collide with it where values are padded, cut or case-folded
+        5 => vec![vec!["p".to_string(), format!("{pk}\0")]],
+        6 => vec![vec!["p".to_string(), format!("{pk}{}", "\0".repeat(182 - 64))]],
+        7 => vec![vec!["p".to_string(), pk.to_uppercase()]],
+        8 => vec![vec!["p".to_string(), pk[..63].to_string()]],
+        _ => vec![vec!["p".to_string(), format!("{pk}0")], vec!["p".to_string(), format!(" {pk}")]],
     };
     GenEvent {
         author: author_i,
@@ -42,7 +48,7 @@ impl Prop for C18 {
         "C18"
     }
     fn rule(&self) -> String {
-        "Cases: histories of 0..30 (thorough 0..100) operations: stores over all kinds incl. ephemeral ones and gift wraps (kind 1059 whose 'p' tag names a pool author as first value of the first or second p tag, or only as a non-first value / under another tag name - the near misses), then removal of present / absent / already removed ids and vanish of authors with zero to many events; a few deletion requests and extra-table rows so that markers exist. Oracle per Remove/Vanish: the change of the retrievable set equals the independently computed target set ({id}; {e: pubkey = P} u {e: kind 1059 and some p tag's first value = hex(P)}); every deletion marker (ids, addresses) and every extra-table row is unchanged; a removed event that is resubmitted is never refused as deleted or duplicate unless a deletion request named it; ephemeral events store Ok but are never retrievable by id nor returned by any query of the snapshot panel. Non-trivial: a removal/vanish with a non-empty target set that leaves >= 2 other retrievable events, or a vanish with a near-miss gift wrap present.".into()
+        "Cases: histories of 0..30 (thorough 0..100) operations: stores over all kinds incl. ephemeral ones and gift wraps (kind 1059 whose 'p' tag names a pool author as first value of the first or second p tag, or only as a non-first value / under another tag name / followed by NUL bytes, a further character, cut by one character or in upper case - the near misses), then removal of present / absent / already removed ids and vanish of authors with zero to many events; a few deletion requests and extra-table rows so that markers exist. Oracle per Remove/Vanish: the change of the retrievable set equals the independently computed target set ({id}; {e: pubkey = P} u {e: kind 1059 and some p tag's first value = hex(P)}); every deletion marker (ids, addresses) and every extra-table row is unchanged; a removed event that is resubmitted is never refused as deleted or duplicate unless a deletion request named it; ephemeral events store Ok but are never retrievable by id nor returned by any query of the snapshot panel. Non-trivial: a removal/vanish with a non-empty target set that leaves >= 2 other retrievable events, or a vanish with a near-miss gift wrap present.".into()
     }
     fn assumptions(&self) -> Vec<String> {
         vec!["vanish() is given an event whose only relevant field is its pubkey (the caller verifies the request).".into()]
@@ -70,7 +76,7 @@ impl Prop for C18 {
             kind_weights: [4, 2, 2, 3, 2],
             ..EvCfg::default()
         };
-        let gw = (0u8..4, 0u8..4, 0u8..4, 100u64..116).prop_map(|(a, t, s, time)| Op::Store(giftwrap(a, t, s, time)));
+        let gw = (0u8..4, 0u8..4, 0u8..10, 100u64..116).prop_map(|(a, t, s, time)| Op::Store(giftwrap(a, t, s, time)));
         (
             prop::collection::vec(prop_oneof![5 => op_strategy(w, cfg), 1 => gw], 0..=tier.pick(30, 100)),
             0u8..2,
@@ -254,7 +260,7 @@ impl Prop for C18 {
                     if let StepKind::Vanish(a) = &step.kind {
                         let near = r_before.iter().any(|i| {
                             let e = &w.events[*i];
-                            e.kind == 1059 && e.pubkey != *a && !targets.contains(i) && e.tags.iter().flatten().any(|s| s == a)
+                            e.kind == 1059 && e.pubkey != *a && !targets.contains(i) && e.tags.iter().flatten().any(|s| s == a || s.to_lowercase().contains(&a[..63]))
                         });
                         if near {
                             out.label("vanish-near-miss");
